@@ -7,7 +7,7 @@ WT=/tmp/wt_$ID; SD=/tmp/seed_$ID/$K; OUT=/verif/seeded/$ID-$K
 export GOFLAGS=-mod=mod GOPROXY=off GOSUMDB=off GOTOOLCHAIN=local
 [ -f $SD/patch.diff ] || { echo "no patch $SD"; exit 2; }
 place=$(grep -m1 -o 'place in: *[^ ]*' $SD/demo_test.go | sed 's/place in: *//'); place=${place:-.}
-git -C $WT checkout -q -- . ; git -C $WT clean -fdq; find $WT -name verif_contracts.go -delete
+git -C $WT checkout -q -- . ; git -C $WT clean -fdq; find $WT -name "verif_*.go" -delete
 log=""
 run() { log="$log\n$ $*"; }
 # demo on clean tree must pass
@@ -21,7 +21,7 @@ git -C $WT apply $SD/patch.diff || { echo "patch does not apply"; exit 2; }
 cp $SD/demo_test.go $WT/$place/zz_seed_demo_test.go
 (cd $WT/$place && timeout 600 go test -vet=off -count=1 -run 'Seed|Demo' . >/tmp/seed_patched.log 2>&1); patched_rc=$?
 rm -f $WT/$place/zz_seed_demo_test.go
-git -C $WT checkout -q -- . ; git -C $WT clean -fdq; find $WT -name verif_contracts.go -delete
+git -C $WT checkout -q -- . ; git -C $WT clean -fdq; find $WT -name "verif_*.go" -delete
 echo "seed $ID-$K: demo_on_clean=$clean_rc build=$build_rc suite=$suite_rc demo_on_patched=$patched_rc (want 0 0 0 nonzero)"
 if [ $clean_rc -ne 0 ] || [ $build_rc -ne 0 ] || [ $suite_rc -ne 0 ] || [ $patched_rc -eq 0 ]; then echo "NOT CONFIRMED"; tail -5 /tmp/seed_clean.log /tmp/seed_suite.log /tmp/seed_patched.log; exit 1; fi
 mkdir -p $OUT; cp $SD/patch.diff $OUT/patch.diff; cp $SD/demo_test.go $OUT/demo_test.go
